@@ -14,9 +14,13 @@ Properties C08, C09, C18-legacy.
 * `agent.random` is a script of raw draws: `_randbelow(n)` = next draw `% n`; an exhausted
   script raises (`Err.script`).
 
-Not modelled: Python's negative-index aliasing when `place_agent` / `is_cell_empty` are called
-with coordinates outside the grid (outside C08's quantifier; the protocol only sends in-grid
-coordinates to those calls), warnings, property layers (they do not interact with these calls).
+* the reads that index `_grid[x][y]` directly (`is_cell_empty`, `grid[x]`, `get_cell_list_contents`) follow Python
+  list indexing for arbitrary ints (`pyIndex`); `grid[ix, iy]` takes ints through `torus_adj` and slices
+  through `sliceIndices` (CPython's `PySlice_AdjustIndices` + `range`).
+
+Not modelled: `place_agent` with coordinates outside the grid (outside C08's quantifier: the aliasing
+leaves `pos` outside the grid; the protocol only sends in-grid coordinates to it), warnings, property
+layers (they do not interact with these calls).
 -/
 namespace Mesa.Legacy
 
@@ -32,6 +36,8 @@ inductive Err where
   | noEmpty   -- Exception("ERROR: No empty cells")
   | script    -- the scripted random generator ran out of draws
   | key       -- KeyError (NetworkGrid)
+  | index     -- IndexError (Python list indexing outside `-len .. len-1`)
+  | noNode    -- networkx NetworkXError / NodeNotFound (neighbourhood of a node that is not in the graph)
 deriving Repr, DecidableEq
 
 inductive Res where
@@ -285,6 +291,130 @@ def moveToOneOf (g : Grid) (a : Aid) (ps : List Coord) (sel : Selection) (he : H
 
 /-! ### reads -/
 
+/-- Python list indexing with an int, `l[i]` for `len(l) = n`: negative indices count from the end -/
+def pyIndex (n i : Int) : Except Err Int :=
+  if 0 ≤ i ∧ i < n then .ok i else if -n ≤ i ∧ i < 0 then .ok (i + n) else .error .index
+
+/-- the cell `self._grid[x][y]` denotes for arbitrary ints (no `torus_adj`, no bounds check: Python's
+    negative-index aliasing) -/
+def rawCell (g : Grid) (p : Coord) : Except Err Coord :=
+  match pyIndex g.w p.1 with
+  | .error e => .error e
+  | .ok x =>
+    match pyIndex g.h p.2 with
+    | .error e => .error e
+    | .ok y => .ok (x, y)
+
+/-- `is_cell_empty(pos)` for arbitrary integer coordinates -/
+def isCellEmptyRaw (g : Grid) (p : Coord) : Except Err Bool :=
+  match g.rawCell p with
+  | .error e => .error e
+  | .ok c => .ok (g.isCellEmpty c)
+
+/-- the cells `iter_cell_list_contents` / `get_cell_list_contents` read for arbitrary integer coordinates
+    (the generator is consumed to the end: an IndexError anywhere means no result) -/
+def rawCells (g : Grid) : List Coord → Except Err (List Coord)
+  | [] => .ok []
+  | p :: ps =>
+    match g.rawCell p with
+    | .error e => .error e
+    | .ok c =>
+      match rawCells g ps with
+      | .error e => .error e
+      | .ok cs => .ok (c :: cs)
+
+/-- a Python `slice(start, stop, step)`; `none` = `None` -/
+structure PySlice where
+  start : Option Int
+  stop : Option Int
+  step : Option Int
+deriving Repr, DecidableEq
+
+/-- `list(range(start, stop, step))` for `step ≠ 0` -/
+def pyRange (start stop step : Int) : List Int :=
+  if step > 0 then (List.range ((stop - start + step - 1) / step).toNat).map fun (k : Nat) => start + (k : Int) * step
+  else (List.range ((start - stop + (-step) - 1) / (-step)).toNat).map fun (k : Nat) => start + (k : Int) * step
+
+/-- CPython `PySlice_AdjustIndices` for one bound: `lo` / `hi` are the clamps (`0, n` for a positive step,
+    `-1, n-1` for a negative one) -/
+def adjBound (n lo hi v : Int) : Int :=
+  let v' := if v < 0 then v + n else v
+  if v < 0 then (if v' < 0 then lo else v') else if v ≥ n then hi else v
+
+/-- the indices a slice selects from a list of length `n` (`slice.indices(n)` expanded); a zero step raises
+    ValueError -/
+def sliceIndices (n : Int) (s : PySlice) : Except Err (List Int) :=
+  let step := s.step.getD 1
+  if step = 0 then .error .value
+  else if step > 0 then
+    let start := match s.start with | none => 0 | some v => adjBound n 0 n v
+    let stop := match s.stop with | none => n | some v => adjBound n 0 n v
+    .ok (pyRange start stop step)
+  else
+    let start := match s.start with | none => n - 1 | some v => adjBound n (-1) (n - 1) v
+    let stop := match s.stop with | none => -1 | some v => adjBound n (-1) (n - 1) v
+    .ok (pyRange start stop step)
+
+/-- one component of a 2-tuple index: an int or a slice -/
+inductive Ix where
+  | int (i : Int)
+  | slice (s : PySlice)
+deriving Repr, DecidableEq
+
+/-- `grid[x]` (an int index): the cells of column `x`, Python list indexing -/
+def getColumn (g : Grid) (i : Int) : Except Err (List Coord) :=
+  match pyIndex g.w i with
+  | .error e => .error e
+  | .ok x => .ok ((List.range g.h.toNat).map fun (y : Nat) => (x, (y : Int)))
+
+/-- `map(self.torus_adj, index)` consumed by the list comprehension -/
+def adjAll (g : Grid) : List Coord → Except Err (List Coord)
+  | [] => .ok []
+  | p :: ps =>
+    match g.torusAdj p with
+    | .error e => .error e
+    | .ok c =>
+      match adjAll g ps with
+      | .error e => .error e
+      | .ok cs => .ok (c :: cs)
+
+/-- `grid[(x1, y1), (x2, y2), …]`: the cells read (the empty tuple fails at `index[0]`) -/
+def getMany (g : Grid) (ps : List Coord) : Except Err (List Coord) :=
+  if ps.isEmpty then .error .index else g.adjAll ps
+
+/-- `grid[ix, iy]` with ints and slices: the cells whose contents are returned, in order.
+    int/slice: `torus_adj((x, 0))` first, then the column is sliced; slice/int likewise; slice/slice: the
+    columns are sliced first and the rows only if a column was selected (so `grid[5:5, ::0]` is `[]`) -/
+def getItem2 (g : Grid) (ix iy : Ix) : Except Err (List Coord) :=
+  match ix, iy with
+  | .int x, .int y =>
+    match g.torusAdj (x, y) with
+    | .error e => .error e
+    | .ok c => .ok [c]
+  | .int x, .slice sy =>
+    match g.torusAdj (x, 0) with
+    | .error e => .error e
+    | .ok c =>
+      match sliceIndices g.h sy with
+      | .error e => .error e
+      | .ok ys => .ok (ys.map fun y => (c.1, y))
+  | .slice sx, .int y =>
+    match g.torusAdj (0, y) with
+    | .error e => .error e
+    | .ok c =>
+      match sliceIndices g.w sx with
+      | .error e => .error e
+      | .ok xs => .ok (xs.map fun x => (x, c.2))
+  | .slice sx, .slice sy =>
+    match sliceIndices g.w sx with
+    | .error e => .error e
+    | .ok xs =>
+      if xs.isEmpty then .ok []
+      else
+        match sliceIndices g.h sy with
+        | .error e => .error e
+        | .ok ys => .ok (xs.flatMap fun x => ys.map fun y => (x, y))
+
 /-- `AgentSet(agents)`: a dict keyed by agent keeps the first occurrence of each, in order -/
 def dedup (l : List Aid) : List Aid := l.foldl (fun acc x => if x ∈ acc then acc else acc ++ [x]) []
 
@@ -298,6 +428,10 @@ def getItem (g : Grid) (p : Coord) : Except Err (List Aid) :=
   | .ok q => .ok (g.content q)
 
 end Grid
+
+/-- another space's `place_agent` wrote `agent.pos` of an agent that is not on this grid (outside C08's
+    quantifier — an agent shared between two spaces; kept for the tie and for `C08_remove_foreign_agent`) -/
+def Grid.foreignPos (g : Grid) (a : Aid) (p : Coord) : Grid := { g with pos := updA g.pos a (some p) }
 
 /-! ### histories -/
 
